@@ -520,6 +520,9 @@ def same_token_case(exe, r, run, stats, witness):
     sim = world.Sim(w, latency=1)
     witness["script"] = w.script
     sim.add_node(0)
+    if r.random() < 0.6:
+        # the context also serves a resource (a Reset then goes looking for observers)
+        sim.cmd("res 0 %s body=fixed:6d" % b"x".hex())
     sim.cmd("sess 0 0 udp %s nstart=1" % (PEER % 1))
     fate = [r.choice(["ack", "rst", "rst", "piggy"]) for _ in range(k)]
     witness["same_token"] = {"messages": k, "peer_answers": fate}
